@@ -14,7 +14,7 @@ THEOREMS = [
     "KrroodVerif.Eql.C02_the",
     "KrroodVerif.Eql.C02_multiplicity_typed",
     "KrroodVerif.Eql.C02_the_typed",
-    "KrroodVerif.Eql.C02_cex_falsyBound",
+    "KrroodVerif.Eql.C02_cex_falsyBound",  # witness of the REPAIRED F-C02-1: one row per satisfying assignment now
     "KrroodVerif.Eql.C02_poset_not_lt_ne_ge",
     "KrroodVerif.Eql.C02_poset_negated_atom",
     "KrroodVerif.Eql.C01_cover",
@@ -31,7 +31,8 @@ ASSUMPTIONS = [
     "selected expressions are distinct plain variables (the property counts assignments of the query's variables)",
 ]
 RULE = ("corpus, then random F2 conditions (depth<=4; and_; or_ between same-variable conditions; not_ on atoms; 1-3 "
-        "variables; int/object domains of 0-4 elements, falsy values included in a separate share; variable-sharing "
+        "variables; int/object domains of 0-4 elements, falsy values (0, False, []) in a quarter of the cases - inside "
+        "the theorems' hypotheses since F-C02-1 = F-C01-3 was repaired, so nothing excuses them; variable-sharing "
         "patterns x-x, x-y, x-y-x); each case evaluated with an() (multiset of rows) and the() (outcome); "
         "non-trivial = at least one and not all assignments satisfy; distinct by case text")
 
